@@ -41,7 +41,7 @@ class Profile:
     """Which choice points a FakePort offers, and their alternatives (beyond the default)."""
 
     def __init__(self, write_exc=(), read_exc=(), latency=(0,), content=(), silent=False,
-                 read_window=3, close_exc=False, late=None, blank=()):
+                 read_window=3, close_exc=False, late=None, blank=(), prefix=(), flush_exc=False):
         self.write_exc = tuple(write_exc)
         self.read_exc = tuple(read_exc)
         self.latency = tuple(latency)        # first entry must be 0
@@ -50,12 +50,17 @@ class Profile:
         self.read_window = read_window       # read-fault points offered at the first N reads
         self.close_exc = close_exc           # of each request (and at the retry limit reads)
         self.late = late                     # set of per-request read indexes also offered
+        self.prefix = tuple(prefix)          # stale lines that may sit in the buffer *before* the
+        #                                      reply (a late version banner, a leftover OK)
+        self.flush_exc = flush_exc           # reset_input_buffer() may raise SerialException
         self.blank = tuple(blank)            # what an "empty" read may look like besides b"":
         #                                      a bare line end (a blank line from the board)
         assert self.latency[0] == 0
 
 
 QUIET = Profile()
+STALE_LINES = {"banner": "EBBv13_and_above EB Firmware Version 3.0.2", "ok": "OK",
+               "blankish": " ", "other": "ZZ,stale"}
 
 
 def mutate_line(kind, line, req_name):
@@ -79,6 +84,14 @@ def mutate_line(kind, line, req_name):
         return req_name + ", 7 8"
     if kind == "tabpay":                # conforming: the payload begins with a tab
         return req_name + ",\tB2"
+    if kind == "banner":                # a late version banner answering some other request
+        return "EBBv13_and_above EB Firmware Version 3.0.2"
+    if kind == "bangpay":               # conforming: punctuation in the payload (a name like Plotter!)
+        return req_name + ",Plotter!"
+    if kind == "okpay":                 # conforming: the payload is the word OK
+        return req_name + ",OK"
+    if kind == "errpay":                # conforming: the letters Err without the colon
+        return req_name + ",Err 5"
     if kind == "jsonish":               # another device's answer, with str.format's own characters
         return '{"status":"busy"}'
     if kind == "lonebrace":
@@ -182,6 +195,13 @@ class FakePort:
             if self._choose(f"q{rid}.silent", 2, "silent"):
                 self.board.note_lost(rid)
                 return
+        if self.profile.prefix and lines:
+            choice = self._choose(f"q{rid}.p", 1 + len(self.profile.prefix), "prefix",
+                                  ("",) + self.profile.prefix)
+            if choice:
+                stale = Line(STALE_LINES[self.profile.prefix[choice - 1]], 0, rid, True)
+                self.queue.append(stale)
+                self.produced.append(stale)
         for k, text in enumerate(lines):
             mutated = False
             if self.profile.content:
@@ -233,6 +253,9 @@ class FakePort:
     def reset_input_buffer(self):
         if self.closed:
             raise PortNotOpenError()
+        if self.profile.flush_exc and self._choose(f"flush{len(self.flushed)}.{self.reads}", 2,
+                                                   "flush_exc"):
+            raise serial.SerialException("injected fault while flushing the input buffer")
         self.flushed.extend(self.queue)
         self.queue = []
 
